@@ -233,6 +233,9 @@ def r4_accidentals(ctx):
         for sp in symex.sym_paths(loops[0].body):
             fm = G._formula(F.fold(ctx, F._conj_node(sp), acc)) if sp.conds else ('const', True)
             adds = [e for e in sp.events if e.kind == 'assign' and isinstance(e.node, ast.AugAssign)]
+            plain = [e for e in sp.events if e.kind == 'assign' and isinstance(e.node, ast.Assign) and isinstance(e.node.value, ast.BinOp)
+                     and isinstance(e.node.value.op, ast.Add) and len(e.node.targets) == 1
+                     and src(e.node.value.left) == src(e.node.targets[0])]       # acc = acc + 'x' is acc += 'x'
             for ch in ('+', '-', 'C', 'n'):
                 val = {}
                 for a in G.atoms_of(fm):
@@ -243,7 +246,8 @@ def r4_accidentals(ctx):
                     else:
                         val[a] = (k == ch)
                 if G.evaluate(fm, val):
-                    table[ch] = ''.join(ast.literal_eval(e.node.value) for e in adds) if adds else ''
+                    pieces_ = [e.node.value for e in adds] + [e.node.value.right for e in plain]
+                    table[ch] = ''.join(ast.literal_eval(x_) for x_ in pieces_) if pieces_ else ''
     if not loops:
         # the same map written as a join over the characters: the piece each character contributes is computed by the evaluator
         rets = symex.returns(acc)
